@@ -495,7 +495,22 @@ func (ex *Exec) convert(fr *frame, st *State, x *ssa.Convert) []*State {
 			if t.Sort.K == term.KFP {
 				env[x] = cvtFloatToInt(t, w, isSigned(dst))
 			} else {
-				env[x] = term.Resize(t, w, isSigned(src))
+				r := term.Resize(t, w, isSigned(src))
+				// widening of a truncated value whose range shows the truncation lost nothing: the original value
+				if (r.Op == term.OSext || r.Op == term.OZext) && r.Args[0].Op == term.OExtract && r.Args[0].B == 0 {
+					inner := r.Args[0].Args[0]
+					iw := r.Args[0].W()
+					if inner.W() == r.W() && inner.W() <= 64 {
+						lim := uint64(1) << uint(iw)
+						if r.Op == term.OSext {
+							lim >>= 1
+						}
+						if rg := st.facts().rangeOf(inner); rg.hi < lim {
+							r = inner
+						}
+					}
+				}
+				env[x] = r
 			}
 		case d.Info()&types.IsFloat != 0:
 			t := v.(*term.Term)
